@@ -183,6 +183,20 @@ func registerIntrinsics(p *Program) {
 	reg("verifLockFree", func(ex *Exec, a []Value) Value {
 		return Bool(ex.mutexHeld(a[0].(Ptr)) == 0)
 	})
+	reg("verifTimerResets", func(ex *Exec, a []Value) Value {
+		resets, _ := ex.natState["timer.resets"].([]*Term)
+		el := make([]Value, len(resets))
+		for i, r := range resets {
+			el[i] = r
+		}
+		return ex.newSlice(types.Typ[types.Int64], el, len(el))
+	})
+	reg("verifLastNow", func(ex *Exec, a []Value) Value {
+		if t, ok := ex.natState["time.last"].(*Term); ok {
+			return t
+		}
+		return BV(0, 64)
+	})
 	reg("verifSymbolic", func(ex *Exec, a []Value) Value { return True })
 	reg("verifNondetTime", func(ex *Exec, a []Value) Value {
 		tag := concStr(ex, a[0])
